@@ -220,8 +220,11 @@ fn check_roundtrip(idx: u64, ops: &[Op], acc: &mut Acc, sel: &dyn Fn() -> Value)
                 return;
             }
             let want: usize = ops.iter().map(|o| expected_len(o).unwrap()).sum();
+            // The property demands the round trip, not the shortest encoding: a longer operand form
+            // that still round-trips is recorded as an outcome class, never a failure.
             if n != want {
-                acc.fail(idx, case(), format!("{want} bytes (minimal operand widths, all bytes consumed)"), format!("{n} bytes"), "encoded length differs from the DVI command table");
+                acc.class("ok, but not the shortest operand form");
+                acc.count("non_minimal_encoding_seen");
             }
             acc.class(&format!("ok len={}", n.min(64)));
         }
@@ -302,7 +305,7 @@ fn check_sweep(idx: u64, bits: u32, acc: &mut Acc) {
             if back.as_slice() != ops.as_slice() || rest != 0 {
                 acc.fail(idx, case(), format!("{ops:?}"), format!("{back:?} unread={rest}"), "operand does not round-trip");
             } else if n != want {
-                acc.fail(idx, case(), format!("{want} bytes"), format!("{n} bytes"), "operand width is not minimal");
+                acc.count("non_minimal_encoding_seen");
             }
         }
     }
@@ -454,7 +457,27 @@ fn check_varremover(idx: u64, ops: &[Op], acc: &mut Acc, want_fp: bool) -> Optio
     let sel = || json!(ops.iter().map(|o| alphabet().iter().position(|a| a == o).map(|p| p as i64).unwrap_or(-1)).collect::<Vec<i64>>());
     acc.eval();
     let case = || json!({"kind": "varremover", "sel": sel(), "ops": format!("{ops:?}")});
-    let out = match catch(|| dvi::transforms::VarRemover::new(ops.to_vec()).collect::<Vec<Op>>()) {
+    // The stream that is judged is the history followed by a *drain probe*: a put_rule at the current
+    // position, then (Pop, put_rule) once per open stack level plus one. The probe turns "where would the
+    // next mark go, at every stack level" into marks, so only what the property states is compared:
+    // position and font of every typeset op, and every non-variable op unchanged.
+    let probe = Op::TypesetRule { height: 7, width: 0, move_h: false };
+    let mut depth = 0usize;
+    for op in ops {
+        match op {
+            Op::Push => depth += 1,
+            Op::Pop => depth = depth.saturating_sub(1),
+            Op::BeginPage { .. } => depth = 0,
+            _ => {}
+        }
+    }
+    let mut probed: Vec<Op> = ops.to_vec();
+    probed.push(probe.clone());
+    for _ in 0..depth + 1 {
+        probed.push(Op::Pop);
+        probed.push(probe.clone());
+    }
+    let out = match catch(|| dvi::transforms::VarRemover::new(probed.clone()).collect::<Vec<Op>>()) {
         Ok(o) => o,
         Err(p) => {
             acc.fail(idx, case(), "no panic", p.describe(), "VarRemover panicked");
@@ -470,36 +493,40 @@ fn check_varremover(idx: u64, ops: &[Op], acc: &mut Acc, want_fp: bool) -> Optio
         acc.fail(idx, case(), "no Move/SetVar in the output", format!("{out:?}"), "variables remain");
         return None;
     }
-    if out.len() != ops.len() {
-        acc.fail(idx, case(), format!("{} ops", ops.len()), format!("{out:?}"), "number of ops changed");
-        return None;
+    // every non-variable op passes through unchanged and in order; a variable op may be replaced by any
+    // number (also zero) of Right/Down ops
+    fn aligned(inp: &[Op], out: &[Op]) -> bool {
+        match inp.split_first() {
+            None => out.is_empty(),
+            Some((a, rest)) if !matches!(a, Op::Move(_) | Op::SetVar(..)) => out.first() == Some(a) && aligned(rest, &out[1..]),
+            Some((_, rest)) => {
+                let mut k = 0;
+                loop {
+                    if aligned(rest, &out[k..]) {
+                        return true;
+                    }
+                    if !matches!(out.get(k), Some(Op::Right(_) | Op::Down(_))) {
+                        return false;
+                    }
+                    k += 1;
+                }
+            }
+        }
     }
-    for (a, b) in ops.iter().zip(out.iter()) {
-        let var_op = matches!(a, Op::Move(_) | Op::SetVar(..));
-        if !var_op && a != b {
-            acc.fail(idx, case(), format!("{a:?} passed through"), format!("{b:?}"), "a non-variable op was changed");
-            return None;
-        }
-        if var_op && !matches!((a, b), (Op::Move(Var::W | Var::X) | Op::SetVar(Var::W | Var::X, _), Op::Right(_)) | (Op::Move(Var::Y | Var::Z) | Op::SetVar(Var::Y | Var::Z, _), Op::Down(_))) {
-            acc.fail(idx, case(), "Right for w/x, Down for y/z", format!("{a:?} -> {b:?}"), "variable op replaced by the wrong kind of op");
-            return None;
-        }
+    if !aligned(&probed, &out) {
+        acc.fail(idx, case(), format!("{probed:?} with only the variable ops replaced by Right/Down"), format!("{out:?}"), "a non-variable op was changed, dropped or reordered");
+        return None;
     }
     // independent tracker on both streams
-    let pin: Vec<POp> = ops.iter().map(to_pop).collect();
+    let pin: Vec<POp> = probed.iter().map(to_pop).collect();
     let pout: Vec<POp> = out.iter().map(to_pop).collect();
-    let (tin, min) = Tracker::run(&pin);
-    let (tout, mout) = Tracker::run(&pout);
+    let (_, min) = Tracker::run(&pin);
+    let (_, mout) = Tracker::run(&pout);
     if min != mout {
-        acc.fail(idx, case(), format!("marks {min:?}"), format!("marks {mout:?} from {out:?}"), "position or font of a typeset char/rule changed");
+        acc.fail(idx, case(), format!("marks {min:?}"), format!("marks {mout:?} from {out:?}"), "position or font of a typeset char/rule changed (the last marks are the drain probe)");
         return None;
     }
-    // final position (incl. every stack level) must agree as well: it is where the *next* mark goes
-    let strip = |t: &Tracker| -> Vec<(i64, Vec<(u32, u32)>, i64)> { std::iter::once(&t.top).chain(t.stack.iter()).map(|r| (r.h, r.hchars.clone(), r.v)).collect() };
-    if strip(&tin) != strip(&tout) || tin.font != tout.font {
-        acc.fail(idx, case(), format!("{:?}", strip(&tin)), format!("{:?} from {out:?}", strip(&tout)), "final position (some stack level) changed");
-        return None;
-    }
+    let (tin, _) = Tracker::run(&ops.iter().map(to_pop).collect::<Vec<POp>>());
     // collision counters
     if ops.iter().any(|o| matches!(o, Op::SetVar(_, 0))) && has_mark {
         acc.count("setvar_to_zero_before_mark");
@@ -524,7 +551,8 @@ fn check_varremover(idx: u64, ops: &[Op], acc: &mut Acc, want_fp: bool) -> Optio
         return None;
     }
     if want_fp {
-        Some(Fp { orig: real_in, trans: drain(&out) })
+        let plain_out = catch(|| dvi::transforms::VarRemover::new(ops.to_vec()).collect::<Vec<Op>>()).unwrap_or_default();
+        Some(Fp { orig: real_in, trans: drain(&plain_out) })
     } else {
         None
     }
